@@ -57,7 +57,8 @@ def run(ctx):
     else:
         plans = [("L1,L5", 96, 0, 1), ("L2", 192, 0, 4), ("L3", 64, 0, 2)]
         builds = [("noorc", "-O2", [("noorc-O2", None, "nan")]), ("noorc", "-O0", [("noorc-O0", None, "nan")]),
-                  ("orc", "-O2", [("backup-O2", "backup", "nan")]), ("orc", "-O0", [("backup-O0", "backup", "nan")])]
+                  ("orc", "-O2", [("backup-O2", "backup", "nan")]), ("orc", "-O0", [("backup-O0", "backup", "nan")]),
+                  ("noorc", "clang:-O2", [("noorc-clang-O2", None, "nan")]), ("orc", "clang:-O1", [("backup-clang-O1", "backup", "nan")])]
     space = 0
     nfun = 0
     tot = {"builds": 0, "runs": 0}
@@ -99,7 +100,7 @@ def run(ctx):
         "notes": res.notes[:10],
     }
     assumptions = [
-        "gcc 12 on x86-64 at -O0 and -O2 with default flags is the C compiler; emulation is the oracle (its meaning is C02's subject)",
+        "gcc 12 on x86-64 at -O0 and -O2 (thorough: also clang 14 at -O2/-O1) with default flags is the C compiler; emulation is the oracle (its meaning is C02's subject)",
         "float results are compared bit for bit except that a NaN equals a NaN of any sign/payload: which NaN a C expression yields is the "
         "C compiler's choice (gcc folds x*1.0f to x, swaps operands of commutative operations), not the generator's",
         "32/64-bit lanes use boundary alphabets, not all values",
